@@ -38,6 +38,7 @@ def run_pipeline(spec: Dict[str, Any]) -> Dict[str, Any]:
     from reactivex.testing import ReactiveTest as R
     ctx = cat.Ctx(spec["seed"], spec.get("fault_at"), spec.get("hot", False) or bool(spec.get("poke")), spec.get("fault_kind"))
     s = ctx.s
+    ctx.obs_raise_at = spec.get("obs_raise_at")
     try:
         ys, flags = cat.build_pipeline(ctx, spec["names"], spec.get("form", "pipe"))
     except Exception as e:
@@ -124,7 +125,7 @@ def run_pipeline(spec: Dict[str, Any]) -> Dict[str, Any]:
             try:
                 s.advance_to(HORIZON)
                 break
-            except SinkRaise:
+            except (SinkRaise, cat.ObsRaise):
                 s._is_enabled = False       # an exception out of the run loop leaves the virtual-time scheduler "enabled"
                 continue                    # the subscriber's own exception came back out of the scheduler: go on
             except cat.Fault:
